@@ -89,7 +89,7 @@ PROPS = {
                          "stub: storage errors injected at the corekv seam (read/iterator/write/disk-full/commit error/commit conflict), disk = committed-batch log; not run: net, HTTP/CLI, document ACP"),
         "assumptions": ASSUME_COMMON + ["a failing Commit never reaches the base store (a store that reports failure although it committed is not injected)"],
         "probes": ["fault_read_error", "fault_iterator_error", "fault_write_error", "fault_disk_full", "fault_commit_error", "fault_commit_conflict", "success_despite_fault", "fault_free_call_failed"],
-        "quick": {"count": 6, "budget_s": 80, "workers": 16},
+        "quick": {"count": 24, "budget_s": 80, "workers": 16},
         "thorough": {"count": 100000, "budget_s": 1700, "workers": 16},
         "text": "Per call, the site enumeration is complete in the thorough tier (every distinct storage operation of the fault-free execution fails once); over pre-states and call arguments it is seeded sampling. Oracle: error => no new durable batch, unchanged logical dump (documents, commits, heads, index-backed reads, descriptions, introspection), no update notification, and the retry succeeds; success => state and notifications equal the fault-free twin's.",
         "note": "exhaustive is reported false: complete only per call in the thorough tier, sampled in the quick tier and over inputs. Two handle disciplines (fresh / long-lived collection handle). Document ACP not enabled.",
